@@ -1,9 +1,9 @@
-import XjsModel.Proofs.RtDefs
+import XjsModel.Proofs.RsDefs
 import XjsModel.Proofs.ParserTokens
 /-
   Round trip, part 2: one-step unfoldings of the parser on a known cursor, and state arithmetic.
 -/
-namespace Xjs.RTE
+namespace Xjs.RS
 open Xjs
 
 /-- `k` calls of `NextToken` -/
@@ -193,4 +193,58 @@ theorem loop_step (hc : BaseCfg cfg) (acc : ExprList) (st : PS) (h : st.peek.typ
   rw [exprListLoop, hc.exprI]
   simp [h]
 
-end Xjs.RTE
+/-! ### statements, parameter lists, contexts -/
+
+theorem expect_ok {ty : TokType} {st : PS} (h : st.peek.type = ty) : expectToken ty st = (true, st.next) := by
+  unfold expectToken; simp [h]
+
+theorem semi_ok {st : PS} (h : st.peek.type = .semicolon) : expectSemiASI cfg st = (true, st.next) := by
+  unfold expectSemiASI; simp [h]
+
+theorem next_push (st : PS) (c : Ctx) : (st.push c).next = st.next.push c := by
+  unfold PS.next PS.push; split <;> simp_all
+
+theorem nextK_push (k : Nat) (st : PS) (c : Ctx) : nextK k (st.push c) = (nextK k st).push c := by
+  induction k generalizing st with
+  | zero => rfl
+  | succ k ih => simp only [nextK]; rw [next_push, ih]
+
+theorem pop_push (st : PS) (c : Ctx) : (st.push c).pop = st := rfl
+
+theorem stmtI_nil (hc : BaseCfg cfg) (st : PS) : parseStatementI cfg cfg.stmtI st = baseParseStatement cfg st := by
+  rw [hc.stmtI, parseStatementI]
+
+/-- commas in front of every further parameter -/
+def cparamToks : List Token → List Token
+  | [] => []
+  | p :: ps => commaT :: p :: cparamToks ps
+
+theorem paramToks_cons (p : Token) (ps : List Token) : paramToks (p :: ps) = p :: cparamToks ps := by
+  induction ps generalizing p with
+  | nil => rfl
+  | cons q qs ih => simp only [paramToks, cparamToks]; rw [ih]
+
+theorem params_loop (ps : List Token) : ∀ (acc : List Ident) (st : PS) (last closer : Token) (rest : List Token),
+    st.toks = last :: (cparamToks ps ++ closer :: rest) → closer.type ≠ .comma →
+    paramsLoop acc st = some (acc ++ ps.map identOf, nextK (cparamToks ps).length st) := by
+  induction ps with
+  | nil =>
+    intro acc st last closer rest ht hc
+    have ht' : st.toks = last :: closer :: rest := by simpa [cparamToks] using ht
+    rw [paramsLoop]
+    have : (st.peek.type == TokType.comma) = false := by rw [peek_of_toks ht']; simpa using hc
+    simp [this, cparamToks, nextK]
+  | cons p ps ih =>
+    intro acc st last closer rest ht hc
+    have ht' : st.toks = last :: commaT :: p :: (cparamToks ps ++ closer :: rest) := by simpa [cparamToks] using ht
+    rw [paramsLoop]
+    have hp : (st.peek.type == TokType.comma) = true := by rw [peek_of_toks ht']; rfl
+    simp only [hp, if_true]
+    have h2 : st.next.next.toks = p :: (cparamToks ps ++ closer :: rest) := next_toks_cons (next_toks_cons ht')
+    rw [ih _ _ p closer rest h2 hc]
+    have hcur : identOfCur st.next.next = identOf p := by unfold identOfCur identOf; rw [cur_of_toks h2]
+    rw [hcur]
+    simp only [List.map_cons, List.append_assoc, List.singleton_append, cparamToks, List.length_cons]
+    rfl
+
+end Xjs.RS
